@@ -568,6 +568,21 @@ def _own_exprs(repo, rep):
                       detail=e)
     rep.require_min("R04.5", 10, "expression evaluations in the emitters")
     rep.count("eval_sites", n)
+    # an attribute's expression is evaluated whether or not the value is
+    # then written: the test that lets a dictionary of attributes override
+    # it guards the write, not the evaluation (side effects and errors of
+    # the expression do not depend on what another expression returned)
+    va = comp.methods["visit_Attribute"]
+    res = L.emission(repo, va.qualname)
+    lin = L.Lin(res.emission)
+    evs = lin.all(lambda it: isinstance(it, A.Eval))
+    guarded = [i for i in evs if any(
+        isinstance(n_, A.Py) and n_.kind == "If" and fld == "body"
+        for n_, fld in lin.path(i))]
+    rep.check(bool(evs) and not guarded, "R04.5", va.qualname, "the "
+              "expression of a computed attribute is evaluated "
+              "unconditionally (exactly once per reach)",
+              construct="attribute-eval-unconditional", where=L.where(va))
 
 
 BINDERS = ("Lambda", "ListComp", "SetComp", "DictComp", "GeneratorExp",
